@@ -127,6 +127,11 @@ def run_alone(kind, variant, n, prefix=None):
         elif prefix[0] == "abandon":
             for i in range(prefix[1]):
                 env.step(acts[-1 - i] * 0.7)
+        elif prefix[0] == "length":
+            # the earlier episode was a sampled window of the fold (explicit episode_length), abandoned after one step
+            np.random.seed(prefix[1])
+            env.reset(episode_length=3)
+            env.step(acts[0] * 0.3)
         elif prefix[0] == "error":
             env.step(acts[0])
             try:
@@ -176,7 +181,7 @@ def first_diff(a, b):
 
 
 def isolation(tier, seed):
-    acc = Acc("reproducibility: reset after {completed, abandoned(k), errored} episodes and a fresh identical environment vs a fresh run; "
+    acc = Acc("reproducibility: reset after {completed, abandoned(k), errored, sampled-window (explicit episode_length)} episodes and a fresh identical environment vs a fresh run; "
               "(also with a markov-reset transmitter); isolation: two environments (spot with fees/delay/feature history; ES futures chain at different clocks) under "
               "round-robin, blocked and seeded random interleavings of reset/step calls; traces compared with == on repr(float); "
               "non-trivial = distinct (configuration, prefix / schedule)", "<= 7 steps per environment, 2 environments")
@@ -185,7 +190,7 @@ def isolation(tier, seed):
     for kind in ("spot", "chain", "spot_latency", "chain_latency", "spot_markov"):
         for v in (0, 1):
             base[(kind, v)] = run_alone(kind, v, n)
-    prefixes = [("complete",), ("abandon", 2), ("error",)] + ([("abandon", 1), ("abandon", 4)] if tier != "quick" else [])
+    prefixes = [("complete",), ("abandon", 2), ("error",), ("length", 1)] + ([("abandon", 1), ("abandon", 4), ("length", 2)] if tier != "quick" else [])
     for (kind, v), ref in base.items():
         again = run_alone(kind, v, n)
         acc.case(("fresh", kind, v), sample={"config": [kind, v], "first_step": ref[0][:4]} if (kind, v) == ("spot", 0) else None)
